@@ -225,6 +225,14 @@ def _actor(obs, name, prog, shared, srcpath):
     if kind == "commit":
         def fn():
             b = _b.Branch.open(ft.url(shared + "/" + prog["branch"]))
+            if prog.get("hold"):
+                # all commits as write groups of ONE write lock on one
+                # long-lived repository object (what a fetch or a rebase does)
+                with b.lock_write():
+                    return commits(b)
+            return commits(b)
+
+        def commits(b):
             for j in range(prog["n"]):
                 rid = ("%s-%d" % (name, j)).encode()
                 bb = BranchBuilder(branch=b)
@@ -396,6 +404,8 @@ def schedule_case(draw, tier):
     npacks = draw(st.integers(8, 12))
     nact = draw(st.sampled_from([2, 2, 3]))
     actors = [{"kind": "commit", "branch": "b1", "n": draw(st.integers(1, 3))}]
+    if actors[0]["n"] > 1 and draw(st.integers(0, 1)):
+        actors[0]["hold"] = True
     for i in range(1, nact):
         k = draw(st.sampled_from(["commit", "commit", "pack", "pack-clean",
                                   "reader", "fetch"]))
